@@ -305,7 +305,9 @@ class LinearPolynomial(BaseDeferred):
             # variables cancels out before anything else is evaluated.
             # This may uncover further such variables (e.g. a chain of symbols
             # exported by other files), hence the loop.
-            while not_ready_keys:
+            rounds = 0
+            while not_ready_keys and rounds < 100:
+                rounds += 1
                 for key in not_ready_keys:
                     # (a variable that has cancelled out in the meantime is not needed at all)
                     if not key.is_awaiting and any(key is remaining for remaining in self.coeffs):
